@@ -76,7 +76,7 @@ func c14Scenario(tier string, tags map[string]int, focus []string, deep bool, el
 		mark := len(x.Choices())
 		var abstract []int
 		for fe := FEMap; fe < feCount; fe++ {
-			a := &Alpha{Tier: tier, Mode: 0, NoCatch: true, FE: true, SourceTag: fe.SourceTag()}
+			a := &Alpha{Tier: tier, Mode: 0, NoCatch: true, FE: true, SourceTag: fe.SourceTag(), NoBracket: hasBracketTag(tags)}
 			skel := c10Skel(fe, tags, deep)
 			zh.Reset()
 			var cx *mc.X
